@@ -26,8 +26,17 @@ pub struct Opts {
 
 /// Concrete text of abstract content v (digits): a program whose only
 /// diagnostic names the content, with a non-ASCII first line.
+pub static BIG: std::sync::atomic::AtomicBool = std::sync::atomic::AtomicBool::new(false);
+
 pub fn text_of(v: u64) -> String {
-    format!("// \u{fc}\u{20ac}\u{1F600} doc\nproc main() {{ p{}(); }}\n", v)
+    let mut t = format!("// \u{fc}\u{20ac}\u{1F600} doc\nproc main() {{ p{}(); }}\n", v);
+    if BIG.load(std::sync::atomic::Ordering::Relaxed) {
+        // a long (valid) tail makes every analysis slow enough for the reader to run ahead of the broker
+        for i in 0..400 {
+            t.push_str(&format!("proc q{i}(a: int, ref b: int) {{ var c: int; c := a * (b + {i}); b := c - a; }}\n"));
+        }
+    }
+    t
 }
 
 pub struct Concrete {
@@ -277,6 +286,9 @@ fn chunkings(bytes_per_msg: &[Vec<u8>], mode: &str, rng: &mut Rng) -> Vec<Vec<Ve
 }
 
 pub fn parse_opts(opts: &HashMap<String, String>) -> Opts {
+    if opts.get("big").map(|s| s == "1").unwrap_or(false) {
+        BIG.store(true, std::sync::atomic::Ordering::Relaxed);
+    }
     Opts {
         exe: opts["exe"].clone(),
         verif: opts.get("verif").map(|s| s == "1").unwrap_or(false),
